@@ -84,6 +84,36 @@ def oracle(m, e, dofs):
     return bad
 
 
+def dofloc_incidence(m, b):
+    """each non-NaN DOF location must lie in the affine hull and the bounding box of its entity's vertices"""
+    dl = b.doflocs
+    dofs = b.dofs
+    ents = [("vertex", dofs.nodal_dofs, np.arange(m.p.shape[1])[None, :]),
+            ("edge", dofs.edge_dofs, m.edges if m.dim() == 3 else None),
+            ("facet", dofs.facet_dofs, m.facets), ("cell", dofs.interior_dofs, m.t)]
+    for kind, table, verts in ents:
+        table = np.asarray(table)
+        if table.size == 0 or verts is None:
+            continue
+        for a in range(table.shape[0]):
+            for ent in range(table.shape[1]):
+                x = dl[:, table[a, ent]]
+                if np.isnan(x).any():
+                    continue
+                V = m.p[:, np.unique(verts[:, ent])]
+                lo, hi = V.min(axis=1), V.max(axis=1)
+                tol = 1e-9 * max(1.0, float(np.abs(V).max()))
+                if (x < lo - tol).any() or (x > hi + tol).any():
+                    return {"kind": kind, "entity": int(ent), "location": x.tolist(), "reason": "outside bounding box"}
+                if V.shape[1] > 1:
+                    D = V[:, 1:] - V[:, :1]
+                    lam, res, rk, _ = np.linalg.lstsq(D, x - V[:, 0], rcond=None)
+                    if np.abs(D @ lam - (x - V[:, 0])).max() > tol:
+                        return {"kind": kind, "entity": int(ent), "location": x.tolist(),
+                                "reason": "not in the affine hull of the entity"}
+    return None
+
+
 def run(ctx):
     from skfem import Basis, BilinearForm
     from skfem.assembly import Dofs
@@ -163,6 +193,13 @@ def run(ctx):
                                           {"what": "doflocs", "element": ename})
                             break
                     ctx.count("doflocs-checks")
+                    # independent geometric incidence: the location of a DOF lies in the closure of ITS entity
+                    # (vertex / edge / facet / cell, as the per-entity tables say)
+                    bad_inc = dofloc_incidence(m, b)
+                    if bad_inc:
+                        ctx.violation("DOF location does not lie on the entity the DOF is attached to",
+                                      {"mesh": meshes.mesh_descr(m), "element": ename, "detail": bad_inc},
+                                      {"what": "doflocs-incidence", "element": ename.split("(")[0]})
             except Exception as ex:
                 ctx.violation("Basis/assembly raised " + exc_kind(ex),
                               {"mesh": meshes.mesh_descr(m), "element": ename, "err": repr(ex)},
